@@ -38,8 +38,35 @@ func (e *refEnv) clone() *refEnv {
 
 var sumRe = regexp.MustCompile(`^[0-9]{1,6}(\+[0-9]{1,6})*$`)
 
-// refExpr classifies one expression text and gives its value if known.
+// refExpr classifies one expression text and gives its value if known. Several
+// expressions of the pool on lines of their own are statements evaluated in
+// order; the value is the last one's.
 func refExpr(code string, env *refEnv) (string, int) {
+	t := strings.Trim(code, " \n\t")
+	if strings.Contains(t, "\n") && !strings.Contains(t, "\"") {
+		lines := strings.Split(t, "\n")
+		known := true
+		for _, l := range lines {
+			probe := env.clone()
+			if _, cls := refAtom(l, probe); cls != clsExact && strings.Trim(l, " \t") != "" {
+				known = false
+			}
+		}
+		if known {
+			val, cls := "", clsUnknown
+			for _, l := range lines {
+				if strings.Trim(l, " \t") == "" {
+					continue
+				}
+				val, cls = refAtom(l, env)
+			}
+			return val, cls
+		}
+	}
+	return refAtom(code, env)
+}
+
+func refAtom(code string, env *refEnv) (string, int) {
 	t := strings.Trim(code, " \n\t")
 	if v, ok := env.vars[t]; ok {
 		return v, clsExact
